@@ -2,6 +2,7 @@ package main
 
 import (
 	"fmt"
+	"go/token"
 	"go/types"
 	"strings"
 
@@ -201,23 +202,19 @@ func runC13(c *Ctx) {
 			if P.InTestFile(f) {
 				continue
 			}
-			for _, ci := range callsIn(f) {
-				cc := ci.Common()
-				if cc.IsInvoke() || staticCallee(cc) != nil {
-					continue
-				}
-				u, ok := cc.Value.(*ssa.UnOp)
-				if !ok {
-					continue
-				}
-				name, ok := cb[fieldOf(u.X)]
-				if !ok {
+			for _, u := range cbUses(f, cb) {
+				if u.escapes != "" {
+					c.Bad("C13.callback-owner", fnName(f), "callback m."+u.name+" leaves the monitor chain", P.Pos(u.pos), u.escapes)
 					continue
 				}
 				sites++
 				c.Sites++
-				_, isGo := ci.(*ssa.Go)
-				c.Check(S[f] && !isGo, "C13.callback-owner", fnName(f), "invokes m."+name, P.Pos(ci.Pos()), fmt.Sprintf("synchronously reachable from retryMonitor=%v, via go=%v", S[f], isGo))
+				_, isGo := u.ci.(*ssa.Go)
+				how := "invokes"
+				if u.via != nil {
+					how = "hands to " + fnName(u.via)
+				}
+				c.Check(S[f] && !isGo, "C13.callback-owner", fnName(f), how+" m."+u.name, P.Pos(u.ci.Pos()), fmt.Sprintf("synchronously reachable from retryMonitor=%v, via go=%v", S[f], isGo))
 			}
 		}
 		c.Floor("C13.callback-owner/call-sites", sites, 6)
@@ -228,12 +225,8 @@ func runC13(c *Ctx) {
 			}
 			hasCB := false
 			for g := range syncReach(f) {
-				for _, ci := range callsIn(g) {
-					if u, ok := ci.Common().Value.(*ssa.UnOp); ok && !ci.Common().IsInvoke() {
-						if _, ok := cb[fieldOf(u.X)]; ok {
-							hasCB = true
-						}
-					}
+				if len(cbUses(g, cb)) > 0 {
+					hasCB = true
 				}
 			}
 			if !hasCB {
@@ -283,12 +276,8 @@ func runC13(c *Ctx) {
 				}
 				bad := ""
 				for h := range syncReach(t) {
-					for _, ci := range callsIn(h) {
-						if u, ok := ci.Common().Value.(*ssa.UnOp); ok && !ci.Common().IsInvoke() {
-							if n, ok := cb[fieldOf(u.X)]; ok {
-								bad = fnName(h) + " invokes m." + n
-							}
-						}
+					for _, u := range cbUses(h, cb) {
+						bad = fnName(h) + " invokes m." + u.name
 					}
 				}
 				c.Check(bad == "", "C13.callback-owner", fnName(f), "go "+fnName(t)+" reaches no callback", P.Pos(in.Pos()), bad)
@@ -536,4 +525,81 @@ func lookupFound(f *types.Var) func(e *PPA, st *State, rv RV) string {
 		}
 		return ""
 	}
+}
+
+// cbUse is one use of a manager callback field inside a function: a direct
+// call of the loaded field, or the loaded field handed to a same-package helper
+// that calls its parameter (counted as an invocation at the hand-over site).
+type cbUse struct {
+	ci      ssa.CallInstruction
+	name    string
+	via     *ssa.Function
+	escapes string
+	pos     token.Pos
+}
+
+func cbUses(f *ssa.Function, cb map[*types.Var]string) []cbUse {
+	var out []cbUse
+	instrs(f, func(in ssa.Instruction) {
+		u, ok := in.(*ssa.UnOp)
+		if !ok || u.Op != token.MUL {
+			return
+		}
+		name, ok := cb[fieldOf(u.X)]
+		if !ok {
+			return
+		}
+		if _, isFA := u.X.(*ssa.FieldAddr); !isFA {
+			return
+		}
+		for _, r := range *u.Referrers() {
+			switch x := r.(type) {
+			case *ssa.BinOp, *ssa.DebugRef:
+				// nil test
+			case ssa.CallInstruction:
+				cc := x.Common()
+				if cc.Value == ssa.Value(u) {
+					out = append(out, cbUse{ci: x, name: name})
+					continue
+				}
+				callee := staticCallee(cc)
+				if callee == nil || callee.Pkg != f.Pkg || len(callee.Blocks) == 0 {
+					out = append(out, cbUse{name: name, escapes: "passed to " + calleeName(cc), pos: x.Pos()})
+					continue
+				}
+				// the helper may only call or nil-test the parameter
+				okHelper := true
+				for i, a := range cc.Args {
+					if a != ssa.Value(u) || i >= len(callee.Params) {
+						continue
+					}
+					for _, pr := range *callee.Params[i].Referrers() {
+						switch y := pr.(type) {
+						case *ssa.BinOp, *ssa.DebugRef:
+						case ssa.CallInstruction:
+							if y.Common().Value != ssa.Value(callee.Params[i]) {
+								okHelper = false
+							}
+							if _, isGo := y.(*ssa.Go); isGo {
+								okHelper = false
+							}
+						default:
+							okHelper = false
+						}
+					}
+				}
+				if okHelper {
+					out = append(out, cbUse{ci: x, name: name, via: callee})
+				} else {
+					out = append(out, cbUse{name: name, escapes: "handed to " + fnName(callee) + ", which does more than call it", pos: x.Pos()})
+				}
+			case *ssa.Store:
+				// wiring in NewManager (m.reset = cfg.Reset is a store INTO the field, not of the loaded value)
+				out = append(out, cbUse{name: name, escapes: "stored into " + Expr(x.Addr), pos: x.Pos()})
+			default:
+				out = append(out, cbUse{name: name, escapes: fmt.Sprintf("used by %T", r), pos: r.Pos()})
+			}
+		}
+	})
+	return out
 }
